@@ -99,7 +99,11 @@ export function show(v, max = 160) {
   try {
     s = JSON.stringify(toEjson(v));
   } catch {
-    s = String(v);
+    try {
+      s = String(v);
+    } catch {
+      s = Object.prototype.toString.call(v);
+    }
   }
   return s.length > max ? s.slice(0, max) + "…" : s;
 }
